@@ -181,6 +181,16 @@ func compareTable(c *fw.Ctx, rule, what string, fn *ssa.Function, resIdx int, va
 	if rowValue == nil {
 		rowValue = outcomeOf
 	}
+	// conditions the rule does not know but that are calls to repository helpers are
+	// replaced by the helpers' own conditions (extract-function refactors are transparent)
+	first := asg{}
+	for _, v := range vars {
+		if len(v.values) > 0 {
+			first[v.name] = v.values[0]
+		}
+	}
+	env0 := ip.env(first)
+	t.ExpandUnknown(func(atom string) bool { _, ok := env0(atom); return ok })
 	c.SawFn(fw.FuncName(fn))
 	mismatches := map[string]string{} // construct -> detail (deduplicated by code row + expectation)
 	unknown := map[string]bool{}
